@@ -4,6 +4,10 @@
 //!           `YN` `YG` `YE` (`YO` `YU`)  yacc parser of that kind (ASTWithValidityInfo::new
 //!                         + YaccGrammar::new_from_ast_with_validity_info)
 //!           `L`           LRNonStreamingLexerDef::<DefaultLexerTypes<u32>>::from_str
+//!           `HS`          as `H0`, but on a thread with an 8 MiB stack (the size of a Linux main
+//!                         thread; the harness worker has 256 MiB) and printing only the class and
+//!                         the end position: probes for native-stack exhaustion, which aborts the
+//!                         process (the orchestrator then reports `CRASH`)
 //! result line:
 //!   H: `OK <pos> { E x<keyhex> <s> <e> <val>}*`  |  `ERRS <n> { X <kind> <nspans> {<s> <e>}*}*`
 //!      val = `F <0|1> <s> <e>` | `N <hexnum> <s> <e>` | `S x<hex> <s> <e>` | `U <ns>` | `C <ns> <ns>`
@@ -211,6 +215,20 @@ fn main() {
         let r = catch(std::panic::AssertUnwindSafe(|| match which.as_str() {
             "H0" => run_header(&src, false),
             "H1" => run_header(&src, true),
+            "HS" => {
+                let t = src.clone();
+                let h = std::thread::Builder::new()
+                    .stack_size(8 * 1024 * 1024)
+                    .spawn(move || match GrmtoolsSectionParser::new(&t, false).parse() {
+                        Ok((_, pos)) => format!("OK {}", pos),
+                        Err(es) => format!("ERRS {}", es.len()),
+                    })
+                    .unwrap();
+                match h.join() {
+                    Ok(s) => s,
+                    Err(_) => "PANIC in 8MiB thread".to_string(),
+                }
+            }
             "L" => run_lex(&src),
             w if w.starts_with('Y') => run_yacc(&src, &w[1..]),
             _ => "BADCASE".to_string(),
